@@ -162,9 +162,11 @@ def decode_dump(tok, ty):
     body = tok[1:]
     if not body:
         return []
+    ints = [int(x, 16) for x in body.split(",")]
+    n = len(ints)
     if ty == "f32":
-        return [unhx32(x) for x in body.split(",")]
-    return [unhx(x) for x in body.split(",")]
+        return list(struct.unpack("<%df" % n, struct.pack("<%dI" % n, *ints)))
+    return list(struct.unpack("<%dd" % n, struct.pack("<%dQ" % n, *ints)))
 
 
 def compare(h):
